@@ -11,8 +11,8 @@ import vf
 LEVEL = "model_checking"
 WORKERS = 4     # TLC workers / parallel replay chunks (shared machine)
 CHUNK = 1500
-ACTIONS = ["SendStanza", "SendNonza", "Ack", "Req", "RecvStanza", "RecvNonza", "Loss", "Reconnect", "ResumeOk", "ResumeFail",
-           "EnableOk", "EnableFail", "Destroy"]
+ACTIONS = ["SendStanza", "SendIqRequest", "SendNonza", "Ack", "Req", "RecvStanza", "RecvIqResponse", "RecvIqGet", "RecvNonza",
+           "Loss", "Reconnect", "ResumeOk", "ResumeFail", "EnableOk", "EnableFail", "Destroy"]
 
 
 def edge_cover(edges, seed, maxlen=40):
@@ -116,6 +116,8 @@ def sig_of(steps):
         a = st["a"]
         if "h" in st:
             return f"{a}({st['h']})"
+        if "i" in st:
+            return f"{a}({st['i']})"
         if "sm" in st:
             return f"{a}({'sm' if st['sm'] else 'nosm'})"
         return a
@@ -127,7 +129,7 @@ def failing(chk, behs, tag):
     (k = 1-based index of the first failing step)."""
     bp, trace = chk.path(f"behaviours-{tag}.ndjson"), chk.path(f"trace-{tag}.ndjson")
     vf.write_ndjson(bp, behs)
-    r = vf.qxv("sm", trace, in_path=bp, seed=chk.seed, tier=chk.tier, check=False, opts={"raw": 1})
+    r = vf.qxv("sm", trace, in_path=bp, seed=chk.seed, tier=chk.tier, check=False, opts={"raw": 1, "probe": 1})
     vf.repair_truncated(trace)
     cases = vf.split_cases(trace)
     if r["sanitizer"] or r["rc"] != 0 or not behs:
@@ -178,7 +180,7 @@ def run(chk, replay=None):
                                    depth=40 if quick else 80, seed=chk.seed, workers=WORKERS)
         rnd = random.Random(chk.seed)
         sim.sort(key=lambda b: (-len(b["steps"]), vf._canon(b)))
-        keep = 300 if quick else 5000
+        keep = 300 if quick else 3000
         sim = sim[:keep // 2] + rnd.sample(sim[keep // 2:], min(keep // 2, max(0, len(sim) - keep // 2)))
         st3["replayed"] = len(sim)
         st3["max_depth"] = max([len(b["steps"]) for b in sim] or [0])
@@ -186,13 +188,16 @@ def run(chk, replay=None):
         chk.cov["generation"] = {"transition_tour": st1, "all_paths": st2, "simulate": st3}
     vf.write_ndjson(chk.path("behaviours.ndjson"), behs)
     # 3. replay on the real client over loopback (ASan/UBSan build), 4. trace validation; in chunks, 4 at a time
-    chunks = [behs[i:i + CHUNK] for i in range(0, len(behs), CHUNK)] or [[]]
+    nch = WORKERS * max(1, -(-len(behs) // (WORKERS * CHUNK))) if len(behs) >= WORKERS else 1     # a multiple of the pool size
+    per = max(1, -(-len(behs) // nch))
+    chunks = [behs[i:i + per] for i in range(0, len(behs), per)] or [[]]
 
     def one(ci):
         bp = chk.path(f"behaviours-{ci}.ndjson")
         trace = chk.path(f"trace-{ci}.ndjson")
         vf.write_ndjson(bp, chunks[ci])
-        r = vf.qxv("sm", trace, in_path=bp, seed=chk.seed, tier=chk.tier, check=False, opts={"raw": 1} if replay else None)
+        r = vf.qxv("sm", trace, in_path=bp, seed=chk.seed, tier=chk.tier, check=False,
+                   opts={"raw": 1, "probe": 1} if replay else {"probe": 1})
         vf.repair_truncated(trace)
         cases = vf.split_cases(trace)
         if r["sanitizer"] or r["rc"] != 0:
@@ -229,7 +234,9 @@ def run(chk, replay=None):
     chk.cov["trace_validation_wall_s"] = s["wall_s"]
     chk.cov["exhaustive"] = True
     chk.cov["rule"] = ("behaviours = a path cover of every transition of the bounded StreamMgmt model (Destroy only at path ends) "
-                       "+ all action sequences up to the all-paths depth + seeded random walks (TLC -simulate); each replayed on "
+                       "+ all action sequences up to the all-paths depth + seeded random walks (TLC -simulate); every behaviour is followed by "
+                       "a probe of model actions (Req; Loss; Reconnect(sm); ResumeOk(0)) that exposes the handled count and the "
+                       "unacknowledged queue before the client is destroyed; each replayed on "
                        "a real QXmppClient connected over loopback TCP to a scripted server (ASan/UBSan build) and validated by "
                        "StreamMgmtTrace.tla: the monitor derives covered / expected resend list / expected h from the script's "
                        "moves and the wire only and judges every send-task report, every resend and every <a h/>, <resume h/>")
@@ -266,7 +273,7 @@ def run(chk, replay=None):
         again = [f for f in failing(chk, [small], "confirm") if f[1] == v["prop"]]
         if again:
             k, _, b, mine = again[0]
-            sig = "C09:" + v["prop"] + ":" + sig_of(b["steps"][:k])
+            sig = "C09:" + v["prop"] + ":" + sig_of([dict(x, a=x["e"]) for x in mine[1:k + 1]])
         # replay files live outside out/C09 (which every run wipes on start), so the printed path can be fed to --replay
         rp = os.path.join(vf.OUT, "C09-replay", f"violation-{len(chk.violations) + 1}.ndjson")
         vf.write_ndjson(rp, [b] + mine)
